@@ -20,8 +20,12 @@
    Definitions only; proofs in Proofs/RunHandoff*.v. *)
 From Eino Require Import Base.Util Model.TaskMgr Model.Confluence.
 
+(* how the body of a node ends: behaviour 3 = the body succeeds and the node's post-processor (state
+   post-handler, run by waitOne after the hand-off) fails - the task goes through the protocol as a
+   success and is a failed task for the run loop ([failed]) *)
 Definition bres_of (n : node) : bres :=
-  match n_fail n with 0%N => BOk | 1%N => BErr | _ => BPanic end.
+  match n_fail n with 0%N | 3%N => BOk | 1%N => BErr | _ => BPanic end.
+Definition flag_of (x : node * val) : bool := err_of (bres_of (fst x)).
 Definition bres_eqb (a b : bres) : bool :=
   match a, b with BOk, BOk | BErr, BErr | BPanic, BPanic => true | _, _ => false end.
 
@@ -92,7 +96,7 @@ Fixpoint lookup_all (es : list entry) (run : list (node * val)) : option (list (
   | [] => Some []
   | (t, e) :: es' =>
       match split_task t run, lookup_all es' run with
-      | Some (x, _), Some xs => if Bool.eqb e (failed x) then Some (x :: xs) else None
+      | Some (x, _), Some xs => if Bool.eqb e (flag_of x) then Some (x :: xs) else None
       | _, _ => None
       end
   end.
@@ -126,7 +130,7 @@ Definition resolve_eager (g : graph) (s : st) (r : rl) : option rl :=
       match split_task t (r_run r) with
       | None => None
       | Some (x, rest) =>
-          if negb (Bool.eqb e (failed x)) then None else
+          if negb (Bool.eqb e (flag_of x)) then None else
           let fin o := mkrl (r_ch r) [] false rest (collected s) (r_log r) (r_fuel r) PWait (Some o) in
           if failed x then Some (fin OFail) else
           match calc_next Dag g (r_ch r) [run_task x] with
